@@ -131,6 +131,34 @@ def run(ctx):
                 if out.shape != ref.shape or not np.array_equal(out, ref):
                     ctx.violation("monitor", "a stacked window mixes rows of two series", {"W": W, "lengths": [len(s) for s in series]})
             ctx.count("stack")
+        # the labelling step given beta * mask: labels and reported cost must be those of labelling every series on its own
+        # (what C07_masked_is_separable says about the model), on small integer tables (exact)
+        from fast_ticc.cluster_label_assignment import assign_point_cluster_labels as kernel
+        for i in range(ctx.budget(150, 800)):
+            ns = int(rng.integers(2, 5)); K = int(rng.integers(2, 4))
+            lens = [int(rng.integers(1, 5)) for _ in range(ns)]
+            T = sum(lens)
+            tab = rng.integers(-4, 5, size=(T, K)).astype(float)
+            beta = float(rng.integers(0, 7))
+            mask = dp.label_switching_cost_template(list(lens))
+            case = {"lens": lens, "beta": beta, "table": tab.astype(int).tolist()}
+            ctx.count("masked-kernel")
+            ctx.mark_nontrivial(("mk", i))
+            with ctx.guard("assign_point_cluster_labels(beta * mask)", case):
+                labels, cost = kernel(label_assignment_cost=tab, label_switching_cost=beta * mask)
+                labels = [int(x) for x in labels]
+                want = Fraction(0)
+                pos = 0
+                for n in lens:
+                    o, _ = exact_dp(tab[pos:pos + n].tolist(), [beta] * n)
+                    want += o
+                    pos += n
+                within = [0.0 if m == 0 else beta for m in mask]
+                got = exact_cost(tab.tolist(), within, labels)
+                if got != want:
+                    ctx.violation("monitor", "labelling with the masked switching cost is not the per-series optimum (%s vs %s)" % (float(got), float(want)), {"case": case, "labels": labels})
+                if Fraction(float(cost)) != got:
+                    ctx.violation("monitor", "reported cost %r is not assignment cost + within-series switching cost %s of the returned labels" % (float(cost), float(got)), {"case": case, "labels": labels})
         # (c) traced joint runs
         runs = e2e.cached_runs(ctx, joint_cfgs(ctx.seed, ctx.thorough), "c07") + \
             [r for r in e2e.cached_runs(ctx, e2e.standard_grid(ctx.seed, ctx.thorough), "std") if r["cfg"].get("joint")]
